@@ -87,6 +87,55 @@ func coreMonitors(out *Out, h int, e *Env, ix *coreIx, d *coreDump, markets []*c
 		if !d.hFee.Equal(owedHouseFee) {
 			failOnce(out, h, "C01", "housefee_eq", "block-end", "", fmt.Sprintf("house fee collector %s, owed %s", d.hFee, owedHouseFee))
 		}
+		// "every token that enters custody for a market leaves only to that market's users": what the pool owes
+		// on one market (its unpaid participations and open stakes) is never negative - a negative share means
+		// that market's users were paid out of tokens held for another market
+		share := map[string]sdkmath.Int{}
+		negPart := map[string]bool{}
+		addShare := func(m string, x sdkmath.Int) {
+			if v, ok := share[m]; ok {
+				share[m] = v.Add(x)
+			} else {
+				share[m] = x
+			}
+		}
+		for _, p := range d.parts {
+			if !p.IsSettled {
+				addShare(p.OrderBookUID, p.Liquidity.Add(p.ActualProfit))
+			}
+		}
+		for _, b := range d.bets {
+			for _, f := range b.BetFulfillment {
+				if f.BetAmount.IsNegative() {
+					negPart[b.MarketUID] = true
+				}
+				if openBet(b) {
+					addShare(b.MarketUID, f.BetAmount)
+				}
+			}
+		}
+		for _, m := range d.markets {
+			if v, ok := share[m.UID]; ok && v.IsNegative() {
+				cls := "market-overdrawn"
+				if negPart[m.UID] {
+					cls = "negative-stake-on-other-outcome"
+				}
+				failOnce(out, h, "C01", "market_share_nonneg", cls, m.UID, fmt.Sprintf("the pool owes %s on market %d: its users have been paid from tokens held for other markets", v, uidN(m.UID)))
+			}
+		}
+		// C04 "each participation is paid exactly once when the book is settled": a settled book has no unpaid participation
+		settledBook := map[string]bool{}
+		for _, bk := range d.books {
+			if bk.Status == obtypes.OrderBookStatus_ORDER_BOOK_STATUS_STATUS_SETTLED {
+				settledBook[bk.UID] = true
+			}
+		}
+		for _, p := range d.parts {
+			if settledBook[p.OrderBookUID] && !p.IsSettled {
+				failOnce(out, h, "C04", "paid_when_book_settled", "unpaid-participation-in-settled-book", fmt.Sprintf("%s#%d", p.OrderBookUID, p.Index),
+					fmt.Sprintf("book of market %d is marked settled but participation %d (liquidity %s, realised profit %s, fee %s) was never paid", uidN(p.OrderBookUID), p.Index, p.Liquidity, p.ActualProfit, p.Fee))
+			}
+		}
 		out.Count("mon.C01.checked")
 	} else if !d.pool.Equal(owedPool) {
 		out.Count("diag.C01.pool_ne_midblock")
